@@ -144,6 +144,25 @@ Theorem C06_after_error_eof : forall dec c s, f_er s = true -> spec_recv dec c s
 Proof. exact after_error_eof. Qed.
 Print Assumptions C06_after_error_eof.
 
+(* end-to-end path (cfg[5] = 1: a raw HTTP/2 peer feeds DATA frames to a real ClientConn):
+   the client's RecvMsg results depend only on the concatenated DATA bytes ... *)
+Theorem C06_e2e_segmentation : forall dec c os1 os2 stopped,
+  concat (chunks_of os1) = concat (chunks_of os2) ->
+  forall k, run_ops true stopped dec c (r_init true os1) (repeat ORecv k) =
+            run_ops true stopped dec c (r_init true os2) (repeat ORecv k).
+Proof. exact e2e_segmentation. Qed.
+Print Assumptions C06_e2e_segmentation.
+
+(* ... and the model's end-to-end traces of: a stream cut inside a header (3 of 5 bytes, then
+   trailers with status OK) -> io.EOF; a stream cut inside a payload -> INTERNAL; a declared
+   length of limit+1 -> RESOURCE_EXHAUSTED; in each case the client stops there *)
+Example C06_e2e_witness :
+  run [40; 0; 0; 0; 0; 1] [[1; 3; 0; 0; 0]; [2]; [2]] = Some [[]; [1; 0; 0; 0; 0; 0]; []] /\
+  run [40; 0; 0; 0; 0; 1] [[1; 4; 0; 0; 0; 0]; [1; 3; 3; 7; 7]; [2]; [2]] = Some [[]; []; [3; 13; 0; 0; 0; 0]; []] /\
+  run [40; 0; 0; 0; 0; 1] [[2]; [1; 5; 0; 0; 0; 0; 41]; [2]] = Some [[3; 8; 0; 0; 0; 0]; []; []] /\
+  wf [40; 0; 0; 0; 0; 1] [[1; 3; 0; 0; 0]; [2]; [2]] = true.
+Proof. vm_compute. repeat split. Qed.
+
 (* The executable predicate that is evaluated on implementation traces (all clauses but the
    refuted clause 5) holds on every trace of the model, for every well-formed case. *)
 Theorem C06_holds_on_every_model_trace : forall cfg ops, wf cfg ops = true ->
